@@ -9,8 +9,6 @@ and re-packed (Reencode).  Observations are projected back onto abstract values 
 reading the objects' public attributes; field widths come from the layout tables that
 TLC exported from the spec (params["layout"]), not from the library.
 """
-import struct
-
 from harness import poxenv
 
 poxenv.boot()
@@ -112,8 +110,6 @@ CLASS_KIND = [
 TYPED_ACTIONS = {(of.ofp_action_dl_addr, 4): "a_set_dl_src", (of.ofp_action_dl_addr, 5): "a_set_dl_dst",
                  (of.ofp_action_nw_addr, 6): "a_set_nw_src", (of.ofp_action_nw_addr, 7): "a_set_nw_dst",
                  (of.ofp_action_tp_port, 9): "a_set_tp_src", (of.ofp_action_tp_port, 10): "a_set_tp_dst"}
-# attribute that carries a field when its name differs from the field's
-ATTR = {("error", "type"): "type", ("packet_queue", "properties"): "properties"}
 
 
 class Codec(object):
